@@ -150,6 +150,18 @@ MUTANTS = [
      "                .map(|v| v & J::mask(self.length - idx * J::BITS))",
      "                .map(|v| v & J::mask(self.length - idx * J::BITS + 1))",
      {"C12": ("DEFS", "get_int"), "C09": ("DEFS", "get_int")}),
+    ("M35-set-cannot-clear", "src/dynamic.rs",
+     "        self.data[index / Self::BIT_UNIT] = (self.data[index / Self::BIT_UNIT]\n            & !(1 << (index % Self::BIT_UNIT)))\n            | ((bit as u64) << (index % Self::BIT_UNIT));",
+     "        self.data[index / Self::BIT_UNIT] =\n            self.data[index / Self::BIT_UNIT] | ((bit as u64) << (index % Self::BIT_UNIT));",
+     {"C03": ("MASK", "<Bvd as BitVector>::set"), "C07": ("MASK", "<Bvd as BitVector>::set")}),
+    ("M36-shift-chunk-unmasked", "src/fixed.rs",
+     "                    let old_idx = new_idx - shift;\n                    let d = (self.data[old_idx / Self::BIT_UNIT] >> (old_idx % Self::BIT_UNIT)) & I::mask(l);",
+     "                    let old_idx = new_idx - shift;\n                    let d = self.data[old_idx / Self::BIT_UNIT] >> (old_idx % Self::BIT_UNIT);",
+     {"C05": ("MASK", "ShlAssign"), "C03": ("MASK", "ShlAssign")}),
+    ("M37-shl-in-partial-word-guard-weakened", "src/fixed.rs",
+     "        if self.length % Self::BIT_UNIT != 0 {\n            let i = self.length / Self::BIT_UNIT;\n            let b = (self.data[i] >> (self.length % Self::BIT_UNIT - 1)) & I::ONE;",
+     "        if self.length > 0 {\n            let i = self.length / Self::BIT_UNIT;\n            let b = (self.data[i] >> (self.length % Self::BIT_UNIT - 1)) & I::ONE;",
+     {"C05": ("DECR", "shl_in")}),
     ("M30-bv-hash-branches-on-mode", "src/auto.rs",
      "        for i in 0..(self.significant_bits() + 63) / 64 {\n            self.get_int::<u64>(i).unwrap().hash(state);\n        }",
      "        match self {\n            Bv::Fixed(b) => b.hash(state),\n            Bv::Dynamic(b) => b.hash(state),\n        }",
